@@ -54,6 +54,7 @@ func runC18(r *Run) {
 	}
 	c18WriteThenCancel(r)
 	c18ChanShared(r)
+	c18CancelWithUnaryInFlight(r)
 	c18ReadTimeout(r)
 }
 
